@@ -59,3 +59,8 @@ VARIANTS += [
                                                     "                expected = [line.rstrip('\\n') for line in f]\n                expected_ends_with_newline = True\n        except IOError:\n            self.info(msgs, 'Reference file %s not found.' % expected_path)\n            self.add_failures(msgs, None, None, expected_path, actual=actual)"),
       rule='C10-SPLIT', key='check_string_against_file'),
 ]
+
+VARIANTS += [
+    M('C10', 'reference-stripped-as-a-whole', E(RT, "        mode = 'wb' if binary else 'w'\n        with open(reference_path, mode) as fout:", "        mode = 'wb' if binary else 'w'\n        if rstrip and not binary:\n            result = result.rstrip()\n        with open(reference_path, mode) as fout:"),
+      rule='C10-VERBATIM', key='_write_reference_result'),
+]
